@@ -12,7 +12,9 @@
    seals its answer under some key.
    Deviations: "FirstUser" every accepted message is attributed to user A; "ServerKeyOnly" the
    user-level secret is not checked; "ReplyServerKey" answers are sealed under the server key;
-   "AcceptWrong" a wrong server-level secret is accepted (anti-vacuity).                         *)
+   "AcceptWrong" a wrong server-level secret is accepted (anti-vacuity); "ShapeAccepted" a credential
+   field that holds no key is accepted; "SessionCipherCached" a datagram is opened with the cipher
+   remembered for its session, whichever user it names.                                          *)
 EXTENDS Integers, FiniteSets, TLC
 
 CONSTANTS Dev
@@ -22,16 +24,30 @@ HasUsers(c) == c \in {"vmess", "ss-multi", "ss-udp-multi"}
 HasServerKey(c) == c # "vmess"          \* VMess has only user ids
 Registered == {"A", "B"}
 
+(* sk "shape": the credential field has the right length but holds no key at all (Trojan: 56 ASCII characters that are not
+   hexadecimal digits; Shadowsocks: a key of zero bytes).
+   claim: whose identity the message NAMES (multi-user Shadowsocks: the identity header): "own" = the user whose key sealed
+   the message, "other" = the other registered user (the peer knows that user's identity hash - any holder of the server key
+   can read it off the wire - but not that user's key).
+   prior: the same peer has just sent a valid datagram of the same client session under its own identity (datagram
+   configurations; what a per-session cache would remember).                                                          *)
 Messages ==
-  {[cfg |-> c, sk |-> s, uk |-> u, form |-> f] :
-      c \in Configs, s \in {"right", "wrong", "onebit", "none"}, u \in {"A", "B", "X", "-"}, f \in {"whole", "truncated"}}
+  {[cfg |-> c, sk |-> s, uk |-> u, form |-> f, claim |-> cl, prior |-> pr] :
+      c \in Configs, s \in {"right", "wrong", "onebit", "none", "shape"}, u \in {"A", "B", "X", "-"}, f \in {"whole", "truncated"},
+      cl \in {"own", "other"}, pr \in BOOLEAN}
 
 Sensible(m) == /\ (HasUsers(m.cfg) <=> m.uk # "-")
                /\ (~HasServerKey(m.cfg) => m.sk \in {"right", "none"})      \* vmess: "right" = n/a, "none" = garbage
-               /\ (m.sk = "none" => m.uk \in {"-", "X"})
+               /\ (m.sk \in {"none", "shape"} => m.uk \in {"-", "X"})
+               /\ (m.claim = "other" => (m.cfg \in {"ss-multi", "ss-udp-multi"} /\ m.uk \in Registered /\ m.sk = "right" /\ m.form = "whole"))
+               /\ (m.prior => (m.cfg = "ss-udp-multi" /\ m.uk \in Registered /\ m.sk = "right" /\ m.form = "whole"))
+
+Other(u) == IF u = "A" THEN "B" ELSE "A"
+Named(m) == IF m.claim = "other" THEN Other(m.uk) ELSE m.uk          \* the user the message names
 
 Credential(m) == /\ m.sk = "right"
                  /\ (HasUsers(m.cfg) => m.uk \in Registered)
+                 /\ m.claim = "own"
 
 VARIABLES msg, emitted, authUser, replyKey      \* replyKey: "none" | "server" | a user
 vars == <<msg, emitted, authUser, replyKey>>
@@ -40,10 +56,13 @@ Init == msg \in {m \in Messages : Sensible(m)} /\ emitted = "pending" /\ authUse
 
 Decide ==
   /\ emitted = "pending"
-  /\ LET okServer == msg.sk = "right" \/ ("AcceptWrong" \in Dev /\ msg.sk = "wrong")
+  /\ LET okServer == msg.sk = "right" \/ ("AcceptWrong" \in Dev /\ msg.sk = "wrong") \/ ("ShapeAccepted" \in Dev /\ msg.sk = "shape")
          okUser   == ~HasUsers(msg.cfg) \/ msg.uk \in Registered \/ ("ServerKeyOnly" \in Dev /\ HasServerKey(msg.cfg))
-         ok       == okServer /\ okUser /\ msg.form = "whole"
-         user     == IF ~HasUsers(msg.cfg) THEN "-" ELSE IF "FirstUser" \in Dev THEN "A" ELSE msg.uk
+         \* the named user's key must open the message: it does iff the message names the user whose key sealed it -
+         \* unless the cipher is taken from a cache that remembers the session but not whose key it was made from
+         okClaim  == msg.claim = "own" \/ ("SessionCipherCached" \in Dev /\ msg.prior)
+         ok       == okServer /\ okUser /\ okClaim /\ msg.form = "whole"
+         user     == IF ~HasUsers(msg.cfg) THEN "-" ELSE IF "FirstUser" \in Dev THEN "A" ELSE Named(msg)
      IN /\ emitted' = IF ok THEN "yes" ELSE "no"
         /\ authUser' = IF ok THEN user ELSE "-"
         /\ replyKey' = IF ~ok THEN "none"
